@@ -2,5 +2,5 @@ Require Extraction.
 Require Import ExtrOcamlBasic.
 From Herc Require Import Base.Conv Plumbing.Ticks.
 Extraction "c19_model.ml" conv_anchor time_of_unix configure init_sys step run lineages consumed spec_t0 tick_chain
-  nondecreasing reg_count listed shape effective mono_times replays_ok elapsed_ticks alone floor_ok floor_time in_range
+  nondecreasing reg_count listed shape mono_times replays_ok elapsed_ticks alone floor_ok floor_time in_range
   z_pack z_unpack ticks times.
